@@ -84,11 +84,13 @@ package vm
 //@   modifies cell:[]byte, map:map[uint64][][]byte, vm.StorageKey.changes, vm.StorageKey.nodeType
 //@ end
 
-//@ func (*vm.StorageKey).AddChild
+//@ func (*vm.StorageKey).AddChild(k, child) (out, err)
 //@   verify
 //@   safety [C03]
 //@   requires recv: k != nil && child != nil && child.slot != nil
-//@   ensures result [C03]: result1 == nil && result0 != nil && result0.slot != nil && (result0 == child || result0 == old(k.children[*child.slot][child.offset]))
+//@   ensures result [C03 C11]: err == nil && out != nil && out.slot != nil && (out == child || out == old(k.children[*child.slot][child.offset]))
+//@   ensures reachable-by-index [C11]: k.childrenIndex[strof(child.data)] != nil && (old(k.childrenIndex[strof(child.data)]) != nil ==> k.childrenIndex[strof(child.data)] == old(k.childrenIndex[strof(child.data)]))
+//@   ensures location-registered [C11]: k.children[*child.slot][child.offset] == out
 //@   modifies map:map[string]*vm.StorageKey, map:map[uint256.Int]map[uint8]*vm.StorageKey, map:map[uint8]*vm.StorageKey
 //@ end
 
@@ -129,24 +131,50 @@ package vm
 //@   ensures view [C03 C11]: result == s.index[account][*slot][offset][typeId]
 //@ end
 
-//@ func (*vm.StateChanges).addKey
+// ---------------------------------------------------------------------------
+// Key tree (C11): the flat index by (account, slot, offset, type) and the name / index tree.
+//@ func (*vm.StateChanges).addKey(s, account, slot, offset, key)
 //@   verify
 //@   safety [C03]
 //@   requires recv: s != nil && slot != nil && key != nil && key.slot != nil
+//@   ensures registered [C11]: s.index[account][*slot][offset][key.typeId] != nil
+//@   ensures first-registration-wins [C11]: (old(s.index[account][*slot][offset][key.typeId]) == nil ==> s.index[account][*slot][offset][key.typeId] == key) && (old(s.index[account][*slot][offset][key.typeId]) != nil ==> s.index[account][*slot][offset][key.typeId] == old(s.index[account][*slot][offset][key.typeId]))
 //@   modifies map:map[common.Address]map[uint256.Int]map[uint8]map[common.Hash]*vm.StorageKey, map:map[uint256.Int]map[uint8]map[common.Hash]*vm.StorageKey, map:map[uint8]map[common.Hash]*vm.StorageKey, map:map[common.Hash]*vm.StorageKey
 //@ end
 
-//@ func (*vm.StateChanges).saveKey
+// saveKey: refusals modify nothing; a successful registration is visible through the flat index.
+// The clause by-index-and-by-slot-agree is what C11 demands of every registration.
+//@ func (*vm.StateChanges).saveKey(s, account, parent, self, offset, typeId, parentTypeId, index) (err)
 //@   verify
 //@   safety [C03]
 //@   requires recv: s != nil && self != nil
+//@   let offBad = offset != nil && math(*offset) > 31
+//@   let off8 = ite(offset != nil, uint8(*offset), uint8(0))
+//@   let parentKey = s.index[account][*parent][uint8(0)][parentTypeId]
+//@   let parentMissing = parent != nil && old(parentKey) == nil
+//@   let holder = ite(parent != nil, old(parentKey), s.roots[account])
+//@   ensures out-of-range-offset-refused [C11]: old(offBad) ==> err != nil && unchanged("map:map[common.Address]map[uint256.Int]map[uint8]map[common.Hash]*vm.StorageKey", "map:map[uint256.Int]map[uint8]map[common.Hash]*vm.StorageKey", "map:map[uint8]map[common.Hash]*vm.StorageKey", "map:map[common.Hash]*vm.StorageKey", "map:map[string]*vm.StorageKey", "map:map[uint256.Int]map[uint8]*vm.StorageKey", "map:map[uint8]*vm.StorageKey", "map:map[common.Address]*vm.StorageKey")
+//@   ensures unknown-parent-refused [C11]: !old(offBad) && parentMissing ==> err != nil && unchanged("map:map[common.Address]map[uint256.Int]map[uint8]map[common.Hash]*vm.StorageKey", "map:map[uint256.Int]map[uint8]map[common.Hash]*vm.StorageKey", "map:map[uint8]map[common.Hash]*vm.StorageKey", "map:map[common.Hash]*vm.StorageKey", "map:map[string]*vm.StorageKey", "map:map[uint256.Int]map[uint8]*vm.StorageKey", "map:map[uint8]*vm.StorageKey", "map:map[common.Address]*vm.StorageKey")
+//@   ensures registered-parent-accepted [C11]: !old(offBad) && !parentMissing ==> err == nil
+//@   ensures visible-by-slot [C11]: !old(offBad) && !parentMissing ==> s.index[account][*self][old(off8)][typeId] != nil
+//@   ensures visible-by-index [C11]: !old(offBad) && !parentMissing ==> holder != nil && holder.childrenIndex[strof(index)] != nil
+//@   ensures by-index-and-by-slot-agree [C11]: !old(offBad) && !parentMissing ==> holder.childrenIndex[strof(index)] == s.index[account][*self][old(off8)][typeId]
 //@   modifies map:map[common.Address]map[uint256.Int]map[uint8]map[common.Hash]*vm.StorageKey, map:map[uint256.Int]map[uint8]map[common.Hash]*vm.StorageKey, map:map[uint8]map[common.Hash]*vm.StorageKey, map:map[common.Hash]*vm.StorageKey, map:map[string]*vm.StorageKey, map:map[uint256.Int]map[uint8]*vm.StorageKey, map:map[uint8]*vm.StorageKey, map:map[common.Address]*vm.StorageKey
 //@ end
 
-//@ func (*vm.StateChanges).saveChange
+//@ func (*vm.StateChanges).saveChange(s, account, self, offset, typeId, callIdx, newVal) (err)
 //@   verify
 //@   safety [C03]
 //@   requires recv: s != nil && self != nil
+//@   let offBad = offset != nil && math(*offset) > 31
+//@   let off8 = ite(offset != nil, uint8(*offset), uint8(0))
+//@   let node = s.index[account][*self][off8][typeId]
+//@   let refused = offBad || s.roots[account] == nil || node == nil
+//@   ghost j u64 = 0
+//@   oncall (*vm.StorageKey).JournalChanges : j = j + 1
+//@   assertcall (*vm.StorageKey).JournalChanges journals-on-the-indexed-node [C11 C10]: j == 0 && !refused && $0 == node && $1 == callIdx && sameslice($2, newVal)
+//@   ensures unregistered-refused [C11]: old(refused) ==> err != nil && j == 0 && unchanged("cell:[]byte", "map:map[uint64][][]byte", "vm.StorageKey.changes", "vm.StorageKey.nodeType")
+//@   ensures registered-journaled [C11]: !old(refused) ==> err == nil && j == 1
 //@   modifies cell:[]byte, map:map[uint64][][]byte, vm.StorageKey.changes, vm.StorageKey.nodeType
 //@ end
 
@@ -329,7 +357,7 @@ package vm
 //@   verify
 //@   safety [C03]
 //@   requires slot: slot != nil
-//@   ensures fresh [C03]: result != nil && result.slot == slot && result.offset == offset && result.typeId == typeId
+//@   ensures fresh [C03 C11]: result != nil && fresh(result) && result.slot == slot && result.offset == offset && result.typeId == typeId && sameslice(result.data, data) && result.changes == nil
 //@ end
 
 //@ func vm.newStorageChange
